@@ -11,7 +11,7 @@ import (
 func runC09(cfg *config) *Report {
 	rep := newReport("C09", cfg.tier, cfg.seed)
 	r := newRng(cfg.seed + 9000)
-	rep.Rule = "generated valid files x every record of the file x every field of that record x each class of invalid value (blank, all zeros, a single zero, a code outside any table '~', an illegal character 0x01, a zero date); each faulted file is (a) built (every CashLetter.Create, File.Create) and validated, (b) encoded as JSON and loaded with FileFromJSON; whenever (a) or (b) accepts, the file is written (ASCII, newline) and read back: the reader must accept; non-trivial = the fault makes the record invalid on its own; distinct by (record type, field, class)"
+	rep.Rule = "generated valid files x every record of the file x every field of that record x each class of invalid value (blank, all zeros, a single zero, a code outside any table '~', an illegal character 0x01, a zero date) or of boundary value (every column of the field filled with letters / with nines); each faulted file is (a) built (every CashLetter.Create, File.Create) and validated, (b) encoded as JSON and loaded with FileFromJSON; whenever (a) or (b) accepts, the file is written (ASCII, newline) and read back: the reader must accept; non-trivial = the fault makes the record invalid on its own; distinct by (record type, field, class)"
 	nFiles := 6
 	if cfg.tier == "thorough" {
 		nFiles = 18
@@ -34,6 +34,19 @@ func runC09(cfg *config) *Report {
 		{"zeros", func(w WField) (FV, bool) {
 			if kindOfConv(w.Conv) == 'S' && w.Width > 0 {
 				return FV{K: 'S', S: []byte(strings.Repeat("0", w.Width))}, true
+			}
+			return FV{}, false
+		}},
+		{"full-width-letters", func(w WField) (FV, bool) {
+			// every column of the field used (valid for free text: the neighbours must not bleed into each other)
+			if kindOfConv(w.Conv) == 'S' && w.Width > 1 {
+				return FV{K: 'S', S: []byte(strings.Repeat("Z", w.Width))}, true
+			}
+			return FV{}, false
+		}},
+		{"full-width-nines", func(w WField) (FV, bool) {
+			if kindOfConv(w.Conv) == 'S' && w.Width > 1 {
+				return FV{K: 'S', S: []byte(strings.Repeat("9", w.Width))}, true
 			}
 			return FV{}, false
 		}},
@@ -88,10 +101,17 @@ func runC09(cfg *config) *Report {
 							}
 						} else {
 							cd.ImageViewDetail, cd.ImageViewData, cd.ImageViewAnalysis = nil, nil, nil
-							if cd.AddendumCount == 0 {
+							// every addendum kind at least once: the matrix below must reach every record type
+							if len(cd.CheckDetailAddendumA) == 0 {
 								cd.AddCheckDetailAddendumA(baseCheckDetailAddendumA())
-								cd.AddendumCount = 1
 							}
+							if len(cd.CheckDetailAddendumB) == 0 {
+								cd.AddCheckDetailAddendumB(baseCheckDetailAddendumB())
+							}
+							if len(cd.CheckDetailAddendumC) == 0 {
+								cd.AddCheckDetailAddendumC(baseCheckDetailAddendumC())
+							}
+							cd.AddendumCount = len(cd.CheckDetailAddendumA) + len(cd.CheckDetailAddendumB) + len(cd.CheckDetailAddendumC)
 						}
 					}
 					if len(b.Returns) > 0 {
@@ -106,6 +126,19 @@ func runC09(cfg *config) *Report {
 							}
 						} else {
 							rd.ImageViewDetail, rd.ImageViewData, rd.ImageViewAnalysis = nil, nil, nil
+							if len(rd.ReturnDetailAddendumA) == 0 {
+								rd.AddReturnDetailAddendumA(baseReturnDetailAddendumA())
+							}
+							if len(rd.ReturnDetailAddendumB) == 0 {
+								rd.AddReturnDetailAddendumB(baseReturnDetailAddendumB())
+							}
+							if len(rd.ReturnDetailAddendumC) == 0 {
+								rd.AddReturnDetailAddendumC(baseReturnDetailAddendumC())
+							}
+							if len(rd.ReturnDetailAddendumD) == 0 {
+								rd.AddReturnDetailAddendumD(baseReturnDetailAddendumD())
+							}
+							rd.AddendumCount = len(rd.ReturnDetailAddendumA) + len(rd.ReturnDetailAddendumB) + len(rd.ReturnDetailAddendumC) + len(rd.ReturnDetailAddendumD)
 						}
 					}
 				}
@@ -237,6 +270,12 @@ func runC09(cfg *config) *Report {
 							continue // the writer itself refuses: nothing is produced that the reader could reject
 						}
 						_, rerr, _ := realRead(out, encCfg{}, 1<<22)
+						if rerr != nil && strings.Contains(rerr.Error(), "token too long") {
+							// the record outgrew this harness' scanner buffer (a length field was set to its maximum):
+							// a buffer-size matter (C16), not a refusal by a validator
+							rep.count("record-larger-than-harness-buffer")
+							continue
+						}
 						if rerr != nil {
 							rep.violate(Violation{Key: "C09:accepted-then-refused:" + recName, What: fmt.Sprintf("%s accepts a file whose %s.%s is invalid (%s), the bytes it writes are refused by the reader: %v", path.name, recName, w.Src, cl.name, rerr),
 								Replay: map[string]any{"record": recName, "field": w.Src, "class": cl.name, "path": path.name, "json": string(js), "reader_error": rerr.Error()}})
